@@ -329,6 +329,36 @@ def run(repo, res, tier):
             ok = t.endswith(".value") or t.endswith(".value)") or "_enum_to_string" in t or (isinstance(vexpr, ast.Constant) and vexpr.value in vals)
             res.check("X-ENUM", "%s %s (%s) <- %s" % (path, what, base, t[:70]), ok, mod, origin, "%s %s written with %s" % (path, what, t[:90]), "text of an enumeration-typed element is not the value of the corresponding enum", qualname=qn)
 
+    enum_classes = {}
+    for m_ in repo.modules.values():
+        for c_ in m_.classes.values():
+            if c_.is_enum:
+                enum_classes.setdefault(c_.name, c_)
+
+    def excluded_member(test, pol):
+        """(enum class, member, value) if the test being `pol` means: the tested value is not that member.  A test of
+        `<x>.value` against a member compares a string with an enum object and excludes nothing."""
+        if isinstance(test, str):
+            try:
+                test = ast.parse(test, mode="eval").body
+            except SyntaxError:
+                return None
+        if not (isinstance(test, ast.Compare) and len(test.ops) == 1):
+            return None
+        op = test.ops[0]
+        neg = isinstance(op, (ast.IsNot, ast.NotEq))
+        if not isinstance(op, (ast.Is, ast.IsNot, ast.Eq, ast.NotEq)) or neg != bool(pol):
+            return None
+        for a, o in ((test.left, test.comparators[0]), (test.comparators[0], test.left)):
+            ch = attr_chain(o)
+            if ch and len(ch) == 2 and ch[0] in enum_classes and ch[1] in enum_classes[ch[0]].enum_members():
+                if isinstance(a, ast.Attribute) and a.attr == "value":
+                    return None
+                mv = enum_classes[ch[0]].enum_members()[ch[1]]
+                if isinstance(mv, ast.Constant):
+                    return enum_classes[ch[0]], ch[1], mv.value
+        return None
+
     def match(node, tname, inline, path, depth=0):
         key = (w.base_root(node).id, node.id, tname or id(inline))
         if key in cx.seen or depth > 25:
@@ -404,6 +434,39 @@ def run(repo, res, tier):
         for (cn, ct, mn, mxo, cinl) in xch:
             if mn != "0" and cn not in choice_members:
                 res.check("X-REQ", "%s/%s (required) is emitted" % (path, cn), any(tg == cn for tg, c, r in emitted), mod, b.origin, "%s lacks required child %s" % (path, cn), "required element <%s> of <%s> is never written" % (cn, path.split("/")[-1]), qualname=b.fn)
+        # a required child must not hang on a test that a schema-expressible input can fail: every emission of it
+        # stands under `<value> is not Enum.MEMBER` (or != / the else-branch of is / ==) although an object carrying
+        # that member is expressible — the member's value is an enumeration value of a child of this very element
+        for (cn, ct, mn, mxo, cinl) in xch:
+            if mn == "0" or cn in choice_members:
+                continue
+            recs = [r for tg, c, r in emitted if tg == cn]
+            if not recs:
+                continue
+            blocking = []
+            for r in recs:
+                hit = None
+                for g in r.guards:
+                    if not (isinstance(g, tuple) and len(g) >= 2):
+                        continue
+                    t, pol = g[0], g[1]
+                    ex = excluded_member(t, pol)
+
+                    if ex is None:
+                        continue
+                    ecls, mname, mval = ex
+                    # the schema element of this parent that carries the enum: its enumeration shares values with it
+                    evals = {v.value for v in ecls.enum_members().values() if isinstance(v, ast.Constant)}
+                    carriers = [set(xsd.enums[(c2[1] or "").split(":")[-1]]) for c2 in xch if (c2[1] or "").split(":")[-1] in xsd.enums and set(xsd.enums[(c2[1] or "").split(":")[-1]]) & evals]
+                    if carriers and any(mval in vs for vs in carriers):
+                        hit = (t, ecls.name, mname, mval)
+                if hit is None:
+                    blocking = []
+                    break
+                blocking.append((r, hit))
+            ok = not blocking
+            r0, h0 = blocking[0] if blocking else (recs[0], None)
+            res.check("X-REQ", "%s/%s (required) does not depend on an enum value the schema can express" % (path, cn), ok, mod, r0.origin, "%s/%s only written when %s" % (path, cn, (h0[0] if isinstance(h0[0], str) else norm(h0[0])) if h0 else ""), "required element <%s> is left out for %s.%s, whose value %r the schema accepts: the file does not validate" % (cn, h0[1] if h0 else "", h0[2] if h0 else "", h0[3] if h0 else ""), qualname=b.fn)
         # recurse
         for tg, child, rec in emitted:
             if tg in xnames:
